@@ -14,7 +14,7 @@ THEOREMS = ["C06_partial", "C06_refuted_rename", "C06_refuted_rename_across_stat
             "C06_private_never_imported", "C06_spec_private_never_accessible", "C06_fuel_enough",
             "C06_example_hypotheses"]
 REGION_KEYS = {1: "rename-without-only", 2: "private-import-reexported", 4: "only-empty-imports-all",
-               8: "only-duplicate-remote"}
+               8: "only-duplicate-remote", 16: "use-in-interface-body-not-a-dependency"}
 
 
 # ----------------------------------------------------------------------------- fixed cases
@@ -176,17 +176,17 @@ class Runner:
         # region census of all cases
         # failing inputs outside every region first (at most three replays are kept)
         stats["legal_region_free_agreeing_with_spec"] = len(terms) - len(res)
-        for j, code in sorted(res.items(), key=lambda jc: (not (jc[1] & 2 and (jc[1] >> 2) & 15 == 0), jc[0])):
+        for j, code in sorted(res.items(), key=lambda jc: (not (jc[1] & 2 and (jc[1] >> 2) & 31 == 0), jc[0])):
             label, units, groups, files = self.cases[idx[j]]
-            region = (code >> 2) & 15
-            if (code >> 6) & 1:
+            region = (code >> 2) & 31
+            if (code >> 7) & 1:
                 stats["not_legal_spec_skipped"] += 1
             for bit in REGION_KEYS:
                 if region & bit:
                     stats["regions"][REGION_KEYS[bit]] = stats["regions"].get(REGION_KEYS[bit], 0) + 1
             payload = {"label": label, "units": units, "files": files, "code": code,
                        "meaning": "bit0 model!=impl, bit1 impl tables/references differ from the Spec, "
-                                  "bits>=2 region mask (1 rename,2 private,4 only-empty,8 only-dup)",
+                                  "bits>=2 region mask (1 rename,2 private,4 only-empty,8 only-dup,16 use in abstract/generic interface body), 32 not legal",
                        "observed": groups[0][0], "runs": [g[1][:3] for g in groups],
                        "file_orders": [m[0] for g in groups for m in g[1][:3]]}
             if code & 2:
@@ -290,7 +290,8 @@ def run(chk):
     # 3. random DAGs (mostly legal, region-free), two file orders each
     n_random = 320 if quick else 4000
     for k in range(n_random):
-        knobs = {"regions": rng.random() < 0.25, "p_clash": 0.3 if rng.random() < 0.15 else 0.0}
+        knobs = {"regions": rng.random() < 0.25, "p_clash": 0.3 if rng.random() < 0.15 else 0.0,
+                 "p_nested": 0.6 if rng.random() < 0.4 else 0.0}
         units = G.gen_graph(rng, knobs)
         R.add(f"random:{k}", units, file_orders(rng, units, 2 if quick else 4),
               html=any(u["unit"] == "program" and any(d.get("ref") for d in u["decls"]) for u in units)
